@@ -120,9 +120,14 @@ def _params(fdef):
     return [a.arg for a in args.posonlyargs + args.args + args.kwonlyargs]
 
 
+def _is_cm(fdef):
+    return [ast.unparse(d) for d in fdef.decorator_list] in (
+        ['contextmanager'], ['contextlib.contextmanager'])
+
+
 def _kind(fdef):
     decs = [ast.unparse(d) for d in fdef.decorator_list]
-    if not decs:
+    if not decs or _is_cm(fdef):
         return 'plain'
     if decs == ['staticmethod']:
         return 'static'
@@ -151,7 +156,27 @@ def _eligible(fdef, klass=None, known=()):
                         ast.Nonlocal, ast.FunctionDef, ast.AsyncFunctionDef,
                         ast.ClassDef)):
         return False
-    if _contains(body, ast.Yield):
+    if _is_cm(fdef):
+        # `with cm(..) as x: BODY` is the generator with `x = <yielded>;
+        # BODY` in the place of its single yield: one yield statement,
+        # outside any loop, no return
+        yields = [n for n in ast.walk(body) if isinstance(n, ast.Yield)]
+        stmts = [n for n in ast.walk(body) if isinstance(n, ast.Expr) and
+                 isinstance(n.value, ast.Yield)]
+        if len(yields) != 1 or len(stmts) != 1:
+            return False
+        if _contains(body, (ast.Return, ast.With)):
+            return False
+        for loop in ast.walk(body):
+            if isinstance(loop, (ast.For, ast.While)) and any(
+                    n is yields[0] for n in ast.walk(loop)):
+                return False
+        for tri in ast.walk(body):
+            if isinstance(tri, ast.Try) and any(
+                    n is yields[0] for hdl in tri.handlers
+                    for n in ast.walk(hdl)):
+                return False
+    elif _contains(body, ast.Yield):
         # simple generators only: every yield is a statement `yield E`, no
         # value is returned, nothing is sent in
         yields = [n for n in ast.walk(body) if isinstance(n, ast.Yield)]
@@ -727,6 +752,13 @@ class _Inliner:
                 elif isinstance(stmt, ast.Return) and isinstance(
                         stmt.value, ast.Call):
                     call, mode = stmt.value, 'return'
+                elif isinstance(stmt, ast.With) and len(
+                        stmt.items) == 1 and isinstance(
+                            stmt.items[0].context_expr, ast.Call) and (
+                                stmt.items[0].optional_vars is None or
+                                isinstance(stmt.items[0].optional_vars,
+                                           ast.Name)):
+                    call, mode = stmt.items[0].context_expr, 'with'
                 if call is None:
                     return None
                 hit = outer._match(call, helpers, klass, func)
@@ -735,7 +767,10 @@ class _Inliner:
                 fdef, rmap = hit
                 if outer._expr_body(fdef) is not None:
                     return None         # done by inline_expressions
-                if _is_generator(fdef) != (mode in ('for', 'list')):
+                if _is_cm(fdef) != (mode == 'with'):
+                    return None
+                if mode != 'with' and _is_generator(fdef) != (
+                        mode in ('for', 'list')):
                     return None
                 if mode == 'for':
                     # the consumer body is spliced at the yield: it must not
@@ -751,7 +786,7 @@ class _Inliner:
                     return None
                 outer.counter += 1
                 retvar = None if mode in ('expr', 'return', 'for',
-                                          'list') else \
+                                          'list', 'with') else \
                     f'{fdef.name.strip("_")}_result{outer.counter}'
                 direct = None
                 body = copy.deepcopy(_strip_doc(fdef.body))
@@ -822,7 +857,19 @@ class _Inliner:
                               if isinstance(n, ast.Name)}
                     if not tnames & inside:
                         direct = stmt.targets[0]
-                if mode == 'for':
+                if mode == 'with':
+                    def enter(val):
+                        head = []
+                        if stmt.items[0].optional_vars is not None:
+                            head = [ast.Assign(
+                                targets=[copy.deepcopy(
+                                    stmt.items[0].optional_vars)],
+                                value=val if val is not None else
+                                ast.Constant(value=None),
+                                lineno=stmt.lineno)]
+                        return head + list(stmt.body)
+                    body = _replace_yields(body, enter)
+                elif mode == 'for':
                     def splice(val):
                         head = []
                         if ast.unparse(val).strip('()') != ast.unparse(
